@@ -1005,6 +1005,47 @@ func c08Families(tier string) []explore.Family {
 		r.Trace()
 		r.Class("string-literal/" + strconv.Itoa(len(lit)))
 	}})
+	// two (or three) literals in ONE expression, each holding what would be syntax outside a literal: the other
+	// quote character, pipes and colons with blanks around them, brackets, commas, range dots, braces
+	pieces := []string{"What's", `say "x"`, " | Blog : A", "| join : x", "a|b:c", "x | y", ": |", "it's | a : b", `"`, "'", "[k]", `m["a"]`, "(1..2)", "a , b", "{", "} -", "a | upcase", "| append: 'q'", `| append : "q"`, " "}
+	quoted := func(p string) string {
+		if strings.Contains(p, `"`) {
+			return "'" + p + "'"
+		}
+		return `"` + p + `"`
+	}
+	fams = append(fams, explore.Family{Name: "several-literals-in-one-expression", Count: int64(len(pieces) * len(pieces)), Run: func(i int64, r *explore.Rec) {
+		p1, p2 := pieces[int(i)/len(pieces)], pieces[int(i)%len(pieces)]
+		if strings.Contains(p1, `"`) && strings.Contains(p1, "'") || strings.Contains(p2, `"`) && strings.Contains(p2, "'") {
+			return // no quote character left to write it with
+		}
+		l1, l2 := quoted(p1), quoted(p2)
+		eq := "N"
+		if p1 == p2 {
+			eq = "E"
+		}
+		for _, form := range []struct{ src, want string }{
+			{"{{ " + l1 + " | append: " + l2 + " }}", p1 + p2},
+			{"{{ " + l2 + " | prepend: " + l1 + " }}", p1 + p2},
+			{"{% if " + l1 + " == " + l2 + " %}E{% else %}N{% endif %}", eq},
+			{"{{ keyed[" + l1 + "] | append: " + l2 + " }}", "K" + p1 + p2},
+			{"{% assign v = " + l1 + " | append: " + l2 + " %}[{{ v }}]", "[" + p1 + p2 + "]"},
+			{"{{ " + l1 + " | append: " + l2 + " | append: " + l1 + " }}", p1 + p2 + p1},
+			{"{{ " + l1 + " | append : " + l2 + " }}", p1 + p2}, // (blanks before a filter's colon, if accepted, change nothing)
+		} {
+			r.Eval()
+			r.Transition()
+			o := Render(c08.eng, form.src, map[string]any{"keyed": map[string]any{p1: "K" + p1}})
+			if strings.Contains(form.src, "append : ") && o.Err != nil {
+				continue // whether blanks may precede the colon is not stated
+			}
+			if o.Panic != nil || o.Err != nil || o.Out != form.want {
+				r.Violation("literal-does-not-denote-itself:several-literals", map[string]any{"template": form.src}, strconv.Quote(form.want), o.String())
+			}
+		}
+		r.Trace()
+		r.Class("several-literals")
+	}})
 	// dot vs bracket, quote style
 	eqs := [][]string{
 		{"{{ m.b }}", `{{ m["b"] }}`, `{{ m['b'] }}`, "{{ m[s] }}"},
